@@ -50,6 +50,8 @@ pub const F2_FIXED: bool = true;
 /// link ends with a write error and the will is published although DISCONNECT came first.
 /// Design-level (reads are not served while a write is pending); no fix proposed.
 pub const F3_FIXED: bool = false;
+/// F4 (an older connection task's PublishWill publishes the next connection's will) was repaired in /repo
+pub const F4_FIXED: bool = true;
 
 fn ack(pkid: u16) -> md::Ack {
     md::Ack { pkid, reason: 0, props: Props::default() }
@@ -1149,7 +1151,7 @@ impl Campaign for C16Wills {
             }
             // known-finding region F4 (an earlier connection of the same client id still waiting
             // out a will delay when the subject connects), excluded by construction
-            if case.predecessor {
+            if case.predecessor && !F4_FIXED {
                 case.predecessor = false;
                 obs.count("excluded_f4_predecessor_waiting_out_will_delay_removed", 1);
             }
